@@ -10,7 +10,7 @@
    Proofs/UrlC10.v), each of which ./check C10 samples against the real library. *)
 From Coq Require Import List NArith ZArith Bool.
 From Wpull Require Import Model.UrlLib Model.Url Proofs.UrlPeProofs Proofs.UrlEscCaseProofs Proofs.UrlFragProofs Proofs.ConstsAgree Gen.Consts Proofs.UrlPathProofs Proofs.UrlEncProofs
-  Proofs.UrlNormProofs Proofs.UrlC10 Proofs.UrlEquivProofs Proofs.UrlEquiv2Proofs Proofs.UrlEquiv3Proofs.
+  Proofs.UrlNormProofs Proofs.UrlC10 Proofs.UrlEquivProofs Proofs.UrlEquiv2Proofs Proofs.UrlEquiv3Proofs Proofs.UrlSpelling.
 Import ListNotations.
 Open Scope N_scope.
 
@@ -405,6 +405,41 @@ Example C10_whole_url_nonvacuous :
   | _, _ => False
   end.
 Proof. cbv zeta. unfold scheme_text, plain_text. vm_compute. repeat split; auto; discriminate. Qed.
+
+(* THE LAST CLAUSE AS ONE THEOREM.  [respell] is the closure (reflexive, symmetric, transitive: any number of steps, in any
+   order and direction) of the six proved re-spelling steps of a whole URL text [respell1] - letter case of the scheme, an
+   explicit default port, letter case of the host name, another IPv4 notation of the same address, dropped path segments,
+   a dropped fragment, each with the side conditions of its theorem above.  Related texts are both rejected with the same
+   kind, or both parse, to URLs that are both network URLs or both not, and network URLs have the same normalized form,
+   scheme, host, port, path and query.  (Outside the closure: hex-digit case of escapes - proved for the encoders of the
+   components, not lifted -, IPv6 re-spelling, user-info; those are compared on the implementation.) *)
+Theorem C10_equiv_spellings :
+  forall enc lower_o idna_o ipv6_o int_o unq_o (s s' : str),
+    respell enc lower_o idna_o ipv6_o int_o s s' ->
+    same_norm enc (parse enc lower_o idna_o ipv6_o int_o unq_o s) (parse enc lower_o idna_o ipv6_o int_o unq_o s').
+Proof. exact respell_same_norm. Qed.
+Print Assumptions C10_equiv_spellings.
+
+(* non-vacuity: "http://EXAMPLE.test/a#f" -> (fragment) "http://EXAMPLE.test/a" -> (host case) "http://example.test/a" *)
+Example C10_spellings_nonvacuous :
+  let sch := [104; 116; 116; 112] in
+  let up := [69; 88; 65; 77; 80; 76; 69; 46; 116; 101; 115; 116] in
+  let lo := [101; 120; 97; 109; 112; 108; 101; 46; 116; 101; 115; 116] in
+  let s1 := sch ++ 58 :: ([47; 47] ++ up ++ [47; 97]) ++ 35 :: [102] in
+  let s3 := sch ++ 58 :: [47; 47] ++ ([] ++ lo ++ []) ++ [47; 97] in
+  respell ex_enc (fun s => s) (fun _ => None) ex_ipv6 (fun _ _ => None) s1 s3 /\ s1 <> s3.
+Proof.
+  cbv zeta. split; [|discriminate].
+  apply (rsp_trans _ _ _ _ _ _ ([104; 116; 116; 112] ++ 58 :: [47; 47] ++ ([] ++ [69; 88; 65; 77; 80; 76; 69; 46; 116; 101; 115; 116] ++ []) ++ [47; 97])).
+  - apply rsp_step.
+    apply (rs_fragment ex_enc (fun s => s) (fun _ => None) ex_ipv6 (fun _ _ => None) [104; 116; 116; 112] [104; 116; 116; 112] 80
+             ([47; 47] ++ [69; 88; 65; 77; 80; 76; 69; 46; 116; 101; 115; 116] ++ [47; 97]) [102] [102]);
+      unfold scheme_text, plain_text; vm_compute; repeat split; auto; discriminate.
+  - apply rsp_step.
+    apply (rs_host ex_enc (fun s => s) (fun _ => None) ex_ipv6 (fun _ _ => None) [104; 116; 116; 112] [104; 116; 116; 112] 80 None
+             [69; 88; 65; 77; 80; 76; 69; 46; 116; 101; 115; 116] [101; 120; 97; 109; 112; 108; 101; 46; 116; 101; 115; 116] [] [47; 97]);
+      unfold scheme_text, plain_text, name_text, port_text, rest_ok; try (vm_compute; repeat split; auto; discriminate).
+Qed.
 
 (* IPv4 notation: the normalized form of an IPv4 spelling is a function of the 32-bit value it denotes (one integer in
    decimal, 0-octal or 0x-hex, or four such parts) - spellings of the same address normalize alike *)
